@@ -33,7 +33,8 @@ EXPLANATION = (
     'Decides these structural parts; word order of wrapped text is textwrap\'s.'
     ' RD (effect-condition drift, stonelint.effects): for the functions this property is anchored in (stonelint.ownership) the path formula of every raise / return / continue / break / assignment / call statement is compared with reference/effects.json by truth table over the leaf tests (so nested vs merged tests, guard clauses vs if/else ladders, De Morgan forms read alike); an effect lost on a path, or a control effect gained on one, is a violation; changed texts and re-spelled tests are not claimed.'
     " RE (expression drift, stonelint.exprdrift): the same functions' attribute names, variable reads, simple statements, calls and arithmetic/slice literals are compared with reference/expressions.json; a substituted attribute or variable, a dropped call or assignment, swapped arguments or a changed literal is a violation; any other edit is not claimed. RC (call-condition drift, stonelint.effects.run_calls): for every call of a repository or imported-library function in those functions, the path conditions of its occurrences are compared with reference/effects.json by truth table; an assignment under which the function used to make the call and now completes without it is a violation (tests on memo tables, emptiness of the iterated collection and earlier refusals excepted; re-spelled conditions are not claimed). MK (memo-key rule, stonelint.memo): a memo table or done-set the reference tree does not have must be keyed by every access path the skipped code reads, injectively and type-aware."
-    ' RI (interface drift, stonelint.interface): constants and tables (folded values), compiled regular expressions (witness text), parameter defaults, special methods, base classes and caching decorators of the modules the property rests on are compared with reference/interface.json; only a concrete difference in what is computed is reported.')
+    ' RI (interface drift, stonelint.interface): constants and tables (folded values), compiled regular expressions (witness text), parameter defaults, special methods, base classes and caching decorators of the modules the property rests on are compared with reference/interface.json; only a concrete difference in what is computed is reported.'
+    ' MU (mutation drift, stonelint.mutation): the functions the property rests on update in place only the caller-owned, class-level and module-level objects they updated on the confirmed tree, and have no new handler that swallows an exception (reference/mutations.json).')
 ASSUMPTIONS = [
     'library model: shutil.copy(src, dst) writes to join(dst, basename(src)) when dst is a '
     'directory, else to dst; os.path.relpath/abspath normalise `..` segments lexically',
@@ -425,6 +426,8 @@ def run(pm, ctx):
     memo.run(pm, ctx, 'C18-MK', OWN['C18'])
     from .. import interface
     interface.run(pm, ctx, 'C18-RI', OWN['C18'])
+    from .. import mutation
+    mutation.run(pm, ctx, 'C18-MU', OWN['C18'])
 
 
 def _check_sink(pm, ctx, f, call, d, kind):
